@@ -68,8 +68,15 @@ def foreign_inputs(pair):
     return out
 
 
-def run_mfront(wd, inp, nd_seed=None, env_seed=None, iolog=None, before=()):
-    """before: other inputs treated by the SAME mfront invocation, ahead of inp (same interface)"""
+AMBIENT = [   # variables of the ambient environment that are no input of the generation (locale, terminal, user, time zone ...)
+    ("LANG", ["C", "en_US.UTF-8", "fr_FR.ISO-8859-1", "C.UTF-8"]), ("LC_ALL", [None, "C", "en_US.UTF-8", "de_DE.UTF-8"]), ("LC_CTYPE", [None, "en_US.UTF-8", "C"]),
+    ("LC_NUMERIC", [None, "fr_FR.UTF-8", "C"]), ("TZ", [None, "UTC", "Asia/Tokyo", "America/Los_Angeles"]), ("TERM", [None, "dumb", "xterm-256color"]),
+    ("USER", [None, "alice", "root"]), ("LOGNAME", [None, "alice"]), ("COLUMNS", [None, "40", "200"]), ("TMPDIR", [None, "/var/tmp"]), ("SHELL", [None, "/bin/zsh"]), ("HOSTNAME", [None, "node-17"])]
+
+
+def run_mfront(wd, inp, nd_seed=None, env_seed=None, iolog=None, before=(), ambient_seed=None, options=()):
+    """before: other inputs treated by the SAME mfront invocation, ahead of inp (same interface); ambient_seed: seeded values (or absence) of
+    the ambient environment variables; options: extra command-line options (part of the option set of the pair)"""
     base = tfel_env()
     env = {k: base[k] for k in sorted(base) if k in ("PATH", "LD_LIBRARY_PATH", "HOME", "LANG")}
     env["LD_PRELOAD"] = VPRE
@@ -80,6 +87,14 @@ def run_mfront(wd, inp, nd_seed=None, env_seed=None, iolog=None, before=()):
     if nd_seed is not None:
         env["VPRE_ND_SEED"] = str(nd_seed)
         env["VPRE_ND_LOG"] = os.path.join(os.path.dirname(wd), "nd.log")
+    if ambient_seed is not None:
+        ra = SM64(ambient_seed)
+        for name, vals in AMBIENT:
+            v = vals[ra.range(0, len(vals) - 1)]
+            if v is None:
+                env.pop(name, None)
+            else:
+                env[name] = v
     keys = list(env)
     if env_seed is not None:   # seeded order of the initial environment
         r = SM64(env_seed)
@@ -87,7 +102,7 @@ def run_mfront(wd, inp, nd_seed=None, env_seed=None, iolog=None, before=()):
             j = r.range(0, k); keys[k], keys[j] = keys[j], keys[k]
     env = {k: env[k] for k in keys}
     p = subprocess.run(["setarch", "-R", MF, "--interface=" + inp[1], "--search-path=" + os.path.dirname(inp[0]),
-                        "--search-path=" + os.path.join(REPO, "mfront/tests/properties")] + [b[0] for b in before] + [inp[0]], cwd=wd, env=env, stdout=subprocess.PIPE, stderr=subprocess.STDOUT, text=True)
+                        "--search-path=" + os.path.join(REPO, "mfront/tests/properties")] + list(options) + [b[0] for b in before] + [inp[0]], cwd=wd, env=env, stdout=subprocess.PIPE, stderr=subprocess.STDOUT, text=True)
     return p.returncode, p.stdout
 
 
@@ -118,7 +133,7 @@ def tree_hashes(wd):
     return out
 
 
-VARIANTS_QUICK = ["seed", "seed", "repeat", "after-others", "after-other-interface", "env-order", "same-invocation", "same-invocation-foreign-directory"]
+VARIANTS_QUICK = ["seed", "seed", "repeat", "after-others", "after-other-interface", "env-order", "ambient-environment", "same-invocation", "same-invocation-foreign-directory"]
 VARIANTS_THOROUGH = VARIANTS_QUICK + ["seed", "seed", "repeat", "after-others", "env-order", "seed", "same-invocation"]
 
 
@@ -198,26 +213,53 @@ def check_pair(root, idx, pair, all_pairs, variants, seed):
             fam = [q for q in all_pairs if q[1] == pair[1] and os.path.dirname(q[0]) == os.path.dirname(pair[0]) and q != pair]
             others = [fam[(idx * 17 + 5 * k + vi) % len(fam)] for k in range(2)] if fam else []
             bad = False
-            for nds in (None, nd):   # natural heap layout (freed blocks are re-used at the same addresses by the next input), then a perturbed one
-                if os.path.exists(lg):
-                    os.remove(lg)
-                rc, out = run_mfront(wd, pair, nd_seed=nds, iolog=lg, before=others)
-                if rc0 != 0 or rc != 0 or not others:
+            # second option set for behaviours: a keyword given on the command line applies to every input of the invocation
+            optsets = [()] + ([("--@SelectedModellingHypothesis=Tridimensional",)] if pair[1] == "generic" and "/behaviours" in pair[0] else [])
+            for opts in optsets:
+                ref_o, rc_o = ref, rc0
+                if opts:
+                    fresh()
+                    if os.path.exists(lg):
+                        os.remove(lg)
+                    rc_o, _ = run_mfront(wd, pair, iolog=lg, options=opts)
+                    ref_o = outputs_of_run(wd, lg)
+                if rc_o != 0 or not others:
                     res["skipped_same_invocation"] = res.get("skipped_same_invocation", 0) + 1
+                    continue
+                for nds in (None, nd) if not opts else (None,):   # natural heap layout (freed blocks are re-used at the same addresses by the next input), then a perturbed one
+                    fresh()
+                    if os.path.exists(lg):
+                        os.remove(lg)
+                    rc, out = run_mfront(wd, pair, nd_seed=nds, iolog=lg, before=others, options=opts)
+                    if rc != 0:
+                        # the invocation fails: legitimate only if one of the earlier inputs fails on its own with these options
+                        alone_ok = True
+                        for o in others:
+                            fresh()
+                            if run_mfront(wd, o, options=opts)[0] != 0:
+                                alone_ok = False
+                        if alone_ok:
+                            res["variants"].append(hist)
+                            res["viol"] = ("invocation-fails-although-each-input-succeeds-alone", "variant %d (%s): mfront %s given %s then this input exits with status %d, while each of them succeeds when treated alone with the same options: %s" % (
+                                vi, hist, " ".join(opts), [os.path.basename(o[0]) for o in others], rc, out[-200:]), {"variant": vi, "history": hist, "options": list(opts), "before": [o[0] for o in others]})
+                            bad = True
+                        else:
+                            res["skipped_same_invocation"] = res.get("skipped_same_invocation", 0) + 1
+                        break
+                    got = {q: h for q, h in outputs_of_run(wd, lg).items() if q in ref_o}
+                    res["variants"].append(hist)
+                    if got != ref_o:
+                        diff = sorted(k for k in set(got) | set(ref_o) if got.get(k) != ref_o.get(k))
+                        res["viol"] = ("generated-files-differ", "variant %d (%s after %s in one mfront invocation%s, %s): %s differ from the files generated when the input is treated alone" % (
+                            vi, hist, [os.path.basename(o[0]) for o in others], (" with " + " ".join(opts)) if opts else "", "natural heap layout" if nds is None else "nd seed %d" % nds, diff[:4]), {"variant": vi, "history": hist, "nd_seed": nds, "files": diff[:8], "before": [o[0] for o in others], "options": list(opts)})
+                        bad = True
+                        break
+                if bad:
                     break
-                got = {q: h for q, h in outputs_of_run(wd, lg).items() if q in ref}
-                res["variants"].append(hist)
-                if got != ref:
-                    diff = sorted(k for k in set(got) | set(ref) if got.get(k) != ref.get(k))
-                    res["viol"] = ("generated-files-differ", "variant %d (%s after %s in one mfront invocation, %s): %s differ from the files generated when the input is treated alone" % (
-                        vi, hist, [os.path.basename(o[0]) for o in others], "natural heap layout" if nds is None else "nd seed %d" % nds, diff[:4]), {"variant": vi, "history": hist, "nd_seed": nds, "files": diff[:8], "before": [o[0] for o in others]})
-                    bad = True
-                    break
-                fresh()
             if bad:
                 break
             continue
-        rc, out = run_mfront(wd, pair, nd_seed=nd, env_seed=(nd if v == "env-order" else None), iolog=lg)
+        rc, out = run_mfront(wd, pair, nd_seed=nd, env_seed=(nd if v in ("env-order", "ambient-environment") else None), iolog=lg, ambient_seed=(nd if v == "ambient-environment" else None))
         got = outputs_of_run(wd, lg)
         res["variants"].append(hist)
         if snap is not None and rc == 0 and rc0 == 0:
@@ -318,7 +360,7 @@ def main():
             "distinct_nontrivial": nontriv,
             "rule": "one evaluation = one perturbed mfront run of an (input, interface) pair compared byte-for-byte (files written by that run, exit status, messages) with the unperturbed baseline run of the same pair in the same scratch path; "
                     "pairs are all .mfront files of mfront/tests/{properties,behaviours,models} x the interfaces the pinned suite uses (a seeded sample in the quick tier); variants: fresh directory with a new simulator seed, repeated run, "
-                    "after two other inputs, after the same input with another interface, permuted environment, last of three inputs treated by one mfront invocation; non-trivial = the baseline run generated at least one file; each (pair, variant, seed) is distinct",
+                    "after two other inputs, after the same input with another interface, permuted environment, seeded ambient environment (locale, time zone, terminal, user variables), last of three inputs treated by one mfront invocation (also with a keyword option on the command line), after an input of a directory holding a name clash; non-trivial = the baseline run generated at least one file; each (pair, variant, seed) is distinct",
             "samples": [{"pair": x["pair"], "files_generated": x["files"], "baseline_exit": x.get("baseline_rc"), "variants": x["variants"]} for x in results[:6]],
             "exhaustive": False,
             "pairs_checked": len(results), "pairs_in_corpus": len(pairs),
